@@ -270,6 +270,31 @@ impl World {
         World { dials }
     }
 
+    /// All transports are built up-front (nothing of the harness is allocated at dial time apart
+    /// from the dial record): used where the heap monitor watches the client. Dial i gets
+    /// scripts[min(i, len-1)]; at most `copies` dials are answered, later ones fail.
+    pub fn prebuilt(script: &[Step], copies: usize) -> World {
+        let mut ready: Vec<(Arc<Mutex<Trace>>, Box<dyn Transport>)> = Vec::with_capacity(copies);
+        for _ in 0..copies {
+            let trace = Arc::new(Mutex::new(Trace::default()));
+            ready.push((trace.clone(), Box::new(Scripted::new(script.to_vec(), WriteFaults::default(), trace))));
+        }
+        ready.reverse();
+        let dials: Rc<RefCell<Vec<DialRecord>>> = Rc::new(RefCell::new(Vec::with_capacity(copies + 1)));
+        let dials2 = dials.clone();
+        verif_hooks::set_dial_factory(Some(Box::new(move |req: &DialRequest| match ready.pop() {
+            Some((trace, t)) => {
+                dials2.borrow_mut().push(DialRecord { req: req.clone(), trace });
+                Some(Ok(t))
+            }
+            None => {
+                dials2.borrow_mut().push(DialRecord { req: req.clone(), trace: Arc::new(Mutex::new(Trace::default())) });
+                Some(Err(io::ErrorKind::ConnectionRefused.into()))
+            }
+        })));
+        World { dials }
+    }
+
     /// every dial gets the same script
     pub fn single(steps: Vec<Step>) -> World {
         World::install(move |_, _, _| Answer::Script(steps.clone(), WriteFaults::default()))
